@@ -182,6 +182,22 @@ theorem claim_ready_only_if_xr_ready (xr : Option String) :
   · intro _; assumption
   · intro h; simp at h
 
+/-- End to end for the claim reconcile: whatever the claim's previous conditions, whatever
+conditions the XR carries and whatever condition types the XR asks to copy to the claim
+(even a forged "Ready" entry in status.claimConditionTypes), the claim ends Ready=True iff
+the XR it observed is Ready=True. -/
+theorem claim_ready_iff (old xrConds : List Cond) (claimTypes : List String) :
+    statusOf (claimReconcile old xrConds claimTypes) "Ready" = some "True" ↔ statusOf xrConds "Ready" = some "True" := by
+  unfold claimReconcile
+  have ht : (claimReady (statusOf xrConds "Ready")).type = "Ready" := by unfold claimReady; split <;> rfl
+  have := statusOf_setCond_self
+    (claimTypes.foldl (fun acc t => setCond acc (getCond xrConds t)) (setCond old reconcileSuccess))
+    (claimReady (statusOf xrConds "Ready"))
+  rw [ht] at this
+  rw [this]
+  unfold claimReady
+  split <;> simp_all [available]
+
 /-! ### non-vacuity -/
 example : (reconcile ⟨[⟨"Ready", "False", "Creating"⟩], []⟩ [⟨"a", true, true⟩] none
     [⟨⟨"Ready", "True", "Forged"⟩, false⟩] .none).map (fun st => statusOf st.conds "Ready") = some (some "True") := by decide
